@@ -92,14 +92,18 @@ Fixpoint lookup_str (k : string) (kvs : list (value * value)) : option value :=
   end.
 
 Section Member.
+(* anyb: how `Any` is read.  true = the annotation reading (Any admits everything);
+   false = the tight reading of an INFERRED type, where Any only ever stands for "no element was
+   seen" (an empty container's element type) and therefore admits nothing. *)
+Variable anyb : bool.
 Variable sub : cls -> cls -> bool.
 
 Fixpoint member (v : value) (t : ty) {struct t} : bool :=
   match t with
-  | TAny => true
+  | TAny => anyb
   | TCls c => sub (class_of v) c
   | TType t' => match v with
-                | VClassObj c => match t' with TAny => true | TCls c0 => sub c c0 | _ => false end
+                | VClassObj c => match t' with TAny => anyb | TCls c0 => sub c c0 | _ => false end
                 | _ => false end
   | TCallable => match v with VCallable => true | _ => false end
   | TList t' => match v with VList es => forallb (fun e => member e t') es | _ => false end
